@@ -170,7 +170,8 @@ def gen_doc(rng, classes, t, depth=4, nonnull=False) -> Any:
         if t == "int":
             return ["i", rng.randint(-5, 1000)]
         if t == "float":
-            return ["f", rng.randint(-5, 50)]
+            # a document written by hand / by another producer: a whole number need not carry a fraction ("ratio": 2)
+            return ["f", rng.randint(-5, 50)] if rng.random() < 0.6 else ["i", rng.randint(-5, 50)]
         if t == "bool":
             return ["b", rng.random() < 0.5]
         if t == "bytes":
@@ -220,6 +221,8 @@ def gen_val(rng, classes, t, depth=4, nonnull=False) -> Any:
             return ["u", rng.choice(UUIDS)]
         if t == "time":
             return ["t", rng.choice(TIMES)]
+        if t == "float":
+            return ["f", rng.randint(-5, 50)]
         return gen_doc(rng, classes, t, depth, nonnull)
     k = t[0]
     if k == "list":
@@ -349,7 +352,7 @@ def dedup(v):
     return v
 
 
-def gen_conv_case(rng, malformed: bool) -> dict:
+def gen_conv_case(rng, malformed: bool, with_prehistory: bool = False) -> dict:
     classes = gen_classes(rng, malformed_maps=malformed and rng.random() < 0.5)
     n = len(classes)
     plan = []
@@ -400,7 +403,11 @@ def gen_conv_case(rng, malformed: bool) -> dict:
         for key in ("doc", "val"):
             if key in st:
                 st[key] = dedup(st[key])
-    return {"kind": "conv", "classes": classes, "plan": plan}
+    case = {"kind": "conv", "classes": classes, "plan": plan}
+    if with_prehistory:
+        pre = gen_conv_case(rng, malformed=False, with_prehistory=False)
+        case["prehistory"] = {"classes": pre["classes"], "plan": pre["plan"]}
+    return case
 
 
 def gen_ser_case(rng, cyclic: bool, lists_only: bool = False, fwd: bool = False) -> dict:
@@ -480,11 +487,13 @@ def ann_str(t, style_new: bool) -> str:
     return f"C{t[1]}"
 
 
-def build_classes(classes: list[dict], seed: int) -> tuple[dict, Any]:
+def build_classes(classes: list[dict], seed: int, modname: str | None = None) -> tuple[dict, Any]:
     """real dataclasses (dataclasses.make_dataclass + Meta) in a synthetic module so that string annotations and
-    get_type_hints resolve; classes with style 'obj' get real type objects, 'str' fully quoted annotations"""
+    get_type_hints resolve; classes with style 'obj' get real type objects, 'str' fully quoted annotations.
+    With an explicit modname the module of that name is REPLACED (a reloaded models module: new class objects,
+    same module and qualified names)."""
     _case_no[0] += 1
-    modname = f"_c16_case_{_case_no[0]}"
+    modname = modname or f"_c16_case_{_case_no[0]}"
     mod = types.ModuleType(modname)
     sys.modules[modname] = mod
     ns = {"Any": Any, "Optional": typing.Optional, "List": typing.List, "Dict": typing.Dict, "datetime": datetime,
@@ -526,6 +535,7 @@ def build_classes(classes: list[dict], seed: int) -> tuple[dict, Any]:
             nsd["Meta"] = type("Meta", (), meta)
         k = dataclasses.make_dataclass(f"C{cid}", flds, namespace=nsd)
         k.__module__ = modname
+        k.__qualname__ = f"C{cid}"
         built[cid] = k
         setattr(mod, f"C{cid}", k)
     return built, mod
@@ -611,9 +621,31 @@ def is_json(v) -> bool:
 
 
 # ================================================================== implementation runner (+ law steps)
+def run_prehistory(cc, pre: dict, modname: str) -> None:
+    """earlier life of the same converter: other classes that happen to have the SAME module and qualified names
+    (a reloaded models module, classes made by a factory, two clients side by side) are structured / unstructured.
+    C16_history_free says this cannot matter; outcomes are not recorded."""
+    built, _ = build_classes(pre["classes"], len(pre["plan"]), modname)
+    for st in pre["plan"]:
+        try:
+            if "doc" in st:
+                cc.structure_from_dict(to_py(st["doc"], built), py_type(st["ty"], built, sys.modules[modname]))
+            elif "val" in st:
+                cc.unstructure_to_dict(to_py(st["val"], built))
+        except NotModelled:
+            raise
+        except BaseException:  # noqa: BLE001
+            pass
+
+
 def run_conv(case: dict) -> dict:
     cc = fresh_converter()
-    built, mod = build_classes(case["classes"], len(case["plan"]))
+    modname = None
+    if case.get("prehistory"):
+        _case_no[0] += 1
+        modname = f"_c16_case_{_case_no[0]}"
+        run_prehistory(cc, case["prehistory"], modname)
+    built, mod = build_classes(case["classes"], len(case["plan"]), modname)
     rev = {k: cid for cid, k in built.items()}
     ops: list[dict] = []      # what the model replays: {"op","ty","doc"} / {"op","val"} + "obs"
     fails: list[str] = []
@@ -727,8 +759,10 @@ def untag(v) -> Any:
 
 
 def json_eq_mod(a, b) -> bool:
-    """the property's 'returns that value': strict equality of JSON (bool/int/float kinds kept apart, key order
-    irrelevant) where a key absent from the input may reappear as null or an empty container"""
+    """the property's 'returns that value': equality of JSON (numbers by value — 2 and 2.0 are the same JSON number —,
+    bools apart, key order irrelevant) where a key absent from the input may reappear as null or an empty container"""
+    if a[0] in ("i", "f") and b[0] in ("i", "f"):
+        return a[1] == b[1]
     if a[0] != b[0]:
         return False
     if a[0] == "l":
@@ -1052,7 +1086,7 @@ def main(chk: Check, replay: dict | None = None) -> int:
     inputs = [c["input"] for c in load_corpus("C16")]
     n = 2500 if chk.thorough else 420
     for i in range(n):
-        inputs.append(gen_conv_case(rng, malformed=(i % 3 == 2)))
+        inputs.append(gen_conv_case(rng, malformed=(i % 3 == 2), with_prehistory=(i % 4 == 1)))
     inputs += fwd_shapes()
     for i in range(n // 3):
         inputs.append(gen_ser_case(rng, cyclic=(i % 4 >= 2), lists_only=(i % 4 == 2)))
@@ -1091,6 +1125,7 @@ def main(chk: Check, replay: dict | None = None) -> int:
                 dist["ser_with_forward_ref_dataclass"] = dist.get("ser_with_forward_ref_dataclass", 0) + 1
             continue
         dist["cases_conv"] += 1
+        dist["cases_with_same_name_prehistory"] = dist.get("cases_with_same_name_prehistory", 0) + bool(c["input"].get("prehistory"))
         dist["error_names_innermost_field"] += c["stats"]["names_field"]
         dist["error_does_not_name_innermost_field"] += c["stats"]["names_field_miss"]
         for k in c["input"]["classes"]:
